@@ -134,6 +134,41 @@ def order_case(case, res):
                     res.violation(f"compare|{fname}", f"{fname} of arrays holding ({n1!r}, {f1!r}) and ({n2!r}, {f2!r}) = {got!r}, "
                                   f"exact values say {want}", case, sub)
         res.hits["array_equal / array_equiv / outer comparisons"] += 1
+        # pairs whose fractions are almost a whole cycle apart: (n - 1, 1/2 - 2^-54) against (n, -1/2), and mirrored
+        if case["ci"] == 0 and f1 == FRC[0]:
+            h = 0.5 - 2.0 ** -54
+            lo, hi = Phase(-0.5000000000000001, 5e-17), Phase(0.5000000000000001, -5e-17)      # stored as (-1, h) and (1, -h)
+            lo_arr = Phase(np.array([-0.5000000000000001, -0.5000000000000001]), np.array([5e-17, 5e-17]))
+            hi_arr = Phase(np.array([0.5000000000000001, 0.5000000000000001]), np.array([-5e-17, -5e-17]))
+            # (these states survive no arithmetic - adding a whole number renormalises them - so the offsets below mostly give
+            # ordinary pairs; the two-argument constructor is the only way in)
+            for n in (0.0, 1.0, float(2 ** 40)):
+                for a, b in ((lo, Phase(-0.5)), (hi, Phase(0.5)), (lo, Phase(0.0, -0.5)), (hi, Phase(0.0, 0.5)), (lo, hi),
+                             (lo + n, Phase(n, -0.5)), (hi + n, Phase(n, 0.5)), (Phase(n, -0.5), Phase(n - 1, 0.5))):
+                    if abs(float(np.asarray(a["frac"].value))) == h:
+                        res.hits["stored fraction one ulp inside a half"] += 1
+                    av, bv = ex(a)[0], ex(b)[0]
+                    sub = {"a": [float(np.asarray(a["int"].value)), repr(float(np.asarray(a["frac"].value)))],
+                           "b": [float(np.asarray(b["int"].value)), repr(float(np.asarray(b["frac"].value)))]}
+                    for name, uf, op in OPS:
+                        for x, y, xv, yv in ((a, b, av, bv), (b, a, bv, av)):
+                            res.transitions += 1
+                            try:
+                                got = bool(op(x, y))
+                                # (the array form: the same state twice, built with the same constructor arguments)
+                                xa = {id(lo): lo_arr, id(hi): hi_arr}.get(id(x))
+                                got2 = got if xa is None else bool(np.all(uf(xa, y)))
+                            except Exception as e:
+                                res.violation(f"compare|{name}|half-cycle boundary raised", f"{type(e).__name__}: {e} [{sub}]", case, sub)
+                                continue
+                            if got != op(xv, yv) or got2 != op(xv, yv):
+                                res.violation(f"compare|{name}|half-cycle boundary", f"phases stored as {sub['a']} and {sub['b']} (exact values "
+                                              f"{float(av)!r} - 2^-54-ish apart): {name} gives {got} / {got2}, exact ordering says {op(xv, yv)}",
+                                              case, sub)
+                    res.transitions += 1
+                    if bool(np.array_equal(a, b)) != (av == bv):
+                        res.violation("compare|np.array_equal|half-cycle boundary", f"{sub}", case, sub)
+            res.hits["fractions almost a whole cycle apart"] += 1
         # scalar forms against every grid value, Phase and Quantity
         for (n2, f2), qv in zip(grid, allv):
             q = mk(n2, f2)
@@ -628,7 +663,8 @@ def render_case(case, res):
             if pv != 0:
                 for k in (1, 3):
                     for spec in (f"z.{k}f", f"+.{k}f", f" .{k}f", f"12.{k}f", f"012.{k}f", f">12.{k}f", f"<12.{k}f", f"^12.{k}f",
-                                 f".>12.{k}f", f"*<14.{k}f", f"x^15.{k}f", f",.{k}f", f"+018,.{k}f", f"+z.{k}f", f"0=14.{k}f", f"-.{k}f"):
+                                 f".>12.{k}f", f"*<14.{k}f", f"x^15.{k}f", f",.{k}f", f"+018,.{k}f", f"+z.{k}f", f"0=14.{k}f", f"-.{k}f",
+                                 f"#.{k}f", f"_.{k}f", f".{k}F", f"+#018_.{k}f", f"#12.{k}F"):
                         try:
                             s_ = format(p, spec)
                         except Exception as e:
@@ -636,7 +672,7 @@ def render_case(case, res):
                             continue
                         res.transitions += 1
                         fill = spec[0] if len(spec) > 1 and spec[1] in "<>^=" else " "
-                        core = s_.strip(fill if fill not in "0123456789+-" else " ").strip(" ").replace(",", "")
+                        core = s_.strip(fill if fill not in "0123456789+-" else " ").strip(" ").replace(",", "").replace("_", "")
                         m = DEC.match(core)
                         ok = bool(m) and len(m.group(3) or "") == k
                         if ok:
@@ -707,7 +743,7 @@ def main(argv=None):
         PID, gen_cases=gen_cases, check_case=check_case, describe=describe,
         required_hits=["near-tie below double resolution", "exact tie", "array with exact ties", "array with sub-ulp near-ties",
                        "2-D reshapes", "zero or missing integer part", "zero or missing fractional part", "D exponent",
-                       "round trip", "precision < 2 with small fraction", "use, update in place, sort again", "transposed view", "unit keyword spellings", "ambient decimal context and print options", "dense fractions rendered", "format specifications with flags, fills and grouping", "array_equal / array_equiv / outer comparisons", "byte strings"],
+                       "round trip", "precision < 2 with small fraction", "use, update in place, sort again", "transposed view", "unit keyword spellings", "ambient decimal context and print options", "dense fractions rendered", "format specifications with flags, fills and grouping", "array_equal / array_equiv / outer comparisons", "byte strings", "fractions almost a whole cycle apart", "stored fraction one ulp inside a half"],
         assumptions=["for exact ties any index/permutation that realises the exact ordering is accepted",
                      "the imaginary flag of an exactly zero value is unconstrained", "format(p, '.0f') (no decimals) falls to the "
                      "Quantity formatter and is not constrained"],
